@@ -408,7 +408,7 @@ fn run_attempt(plan: &Plan, opts: &Opts, t_ms: u64) -> Outcome1 {
             let want: &[&str] = match st.act.as_str() {
                 "DCall" | "WDone" | "WTimeout" => return Ok(()),
                 "DTry" => &["pool.d.try"],
-                "DLoadReject" | "DLoadPass" | "DLoadPassLagged" => &["pool.d.load"],
+                "DReserve" | "DLoadReject" | "DLoadPass" | "DLoadPassLagged" => &["pool.d.load"],
                 "DSpawn" => &["pool.d.spawn"],
                 "DSend" => &["pool.d.send"],
                 "WInc" => &["pool.w.inc"],
